@@ -420,6 +420,25 @@ pub fn gen_graph_project(rng: &mut Rng, tier: Tier, ptr: usize) -> Project {
                     }
                 }
             }
+            // An enum over the generated type (accepted like an enum over any other type).
+            if !embed_in_owner && rng.chance(1, 6) {
+                p.items.push(Item {
+                    module: m,
+                    name: format!("E{idx}"),
+                    vis: true,
+                    doc: None,
+                    kind: ItemKind::Enum {
+                        base: vty,
+                        variants: vec![("Only".into(), None, false)],
+                        flags: Flags::default(),
+                        singleton: None,
+                    },
+                    csize: 0,
+                    calign: 1,
+                    vslots: None,
+                });
+                continue;
+            }
             let (fields, impl_funcs) = match if embed_in_owner { 0 } else { rng.below(4) } {
                 0 => (vec![crate::props::c09::field("table", vty.cptr())], vec![]),
                 1 => (
@@ -437,8 +456,14 @@ pub fn gen_graph_project(rng: &mut Rng, tier: Tier, ptr: usize) -> Project {
                             vis: true,
                             name: format!("f{fn_counter}"),
                             recv: Some(false),
-                            args: vec![("table".into(), vty.clone().cptr())],
-                            ret: rng.chance(1, 2).then(|| vty.clone().mptr()),
+                            // By pointer or by value, as parameter and as return type.
+                            args: vec![(
+                                "table".into(),
+                                if rng.chance(1, 2) { vty.clone().cptr() } else { vty.clone() },
+                            )],
+                            ret: rng.chance(1, 2).then(|| {
+                                if rng.chance(1, 2) { vty.clone().mptr() } else { vty.clone() }
+                            }),
                             address: Some(0x8000 + fn_counter * 16),
                             index: None,
                             cc: None,
